@@ -1150,6 +1150,17 @@ fn start_replication(
             *member_lock = member;
         }
 
+        #[cfg(nundb_verif)]
+        if crate::verif_hooks::link_takeover(
+            &replicate_address,
+            &tcp_addr,
+            is_primary,
+            dbs,
+            &mut client,
+            &mut command_receiver,
+        ) {
+            return Ok(());
+        }
         log::warn!("replication::start_replication::reader");
         let stream = TcpStream::connect(replicate_address.clone()).await?;
         let mut line = String::new();
